@@ -243,6 +243,8 @@ def same_value(a, b, coords, rng, numeric=False):
             return False
         return None if any(r is None for r in res) else True
     a, b = sympy.sympify(a), sympy.sympify(b)
+    if a.has(sympy.nan, sympy.zoo, sympy.oo, -sympy.oo) or b.has(sympy.nan, sympy.zoo, sympy.oo, -sympy.oo):
+        return None            # a denominator vanished identically under this instantiation: undecided
     if a == b:
         return True
     if not numeric:
@@ -266,3 +268,47 @@ def same_value(a, b, coords, rng, numeric=False):
         if good >= 3:
             return True
     return True if good else None
+
+
+class InstPair:
+    """two-sided instantiation for interface operators: every value is a pair (value on the minus
+    side, value on the plus side); functions are instantiated independently on the two sides.
+    jump(w) = w- - w+,  avg(w) = (w- + w+)/2,  minus/plus = restrictions,  Dn = n . grad (a derivation)"""
+
+    def __init__(self, rng, dim, coords):
+        self.m = Inst(rng, dim, coords)
+        self.p = Inst(rng, dim, coords)
+        self.dim, self.coords = dim, list(coords)
+        self.n = [Rational(rng.choice([1, 2, 3]), rng.choice([2, 3, 5])) for _ in range(dim)]
+        self.cc = _mods()['cc']
+        # constants are the same on both sides
+        self.p.cst = self.m.cst
+
+    def inst(self, e):
+        cc = self.cc
+        if isinstance(e, cc.Jump):
+            a, b = self.inst(e.args[0])
+            return (a - b, a - b)
+        if isinstance(e, cc.Average):
+            a, b = self.inst(e.args[0])
+            return ((a + b) / 2, (a + b) / 2)
+        if isinstance(e, cc.MinusInterfaceOperator):
+            a, b = self.inst(e.args[0])
+            return (a, a)
+        if isinstance(e, cc.PlusInterfaceOperator):
+            a, b = self.inst(e.args[0])
+            return (b, b)
+        if isinstance(e, cc.NormalDerivative):
+            a, b = self.inst(e.args[0])
+            dn = lambda v: sum((self.n[i] * diff(v, self.coords[i]) for i in range(self.dim)), S.Zero)
+            return (dn(a), dn(b))
+        if isinstance(e, sympy.Add):
+            vs = [self.inst(a) for a in e.args]
+            return (sum((v[0] for v in vs), S.Zero), sum((v[1] for v in vs), S.Zero))
+        if isinstance(e, sympy.Mul):
+            vs = [self.inst(a) for a in e.args]
+            return (sympy.Mul(*[v[0] for v in vs]), sympy.Mul(*[v[1] for v in vs]))
+        if isinstance(e, sympy.Pow):
+            b, x = self.inst(e.base), self.inst(e.exp)
+            return (b[0] ** x[0], b[1] ** x[1])
+        return (self.m.inst(e), self.p.inst(e))
